@@ -45,7 +45,7 @@ ASSUMPTIONS = [
     "verify() may signal rejection by returning False or by raising a "
     "tlslite exception; other exception types are violations",
 ]
-RSA_KEYS = ["rsa1024", "rsa", "rsa3072", "rsapss"]
+RSA_KEYS = ["rsa1024", "rsa", "rsa3072", "rsapss", "rsa1031", "rsa2047"]
 EC_KEYS = ["ecdsa", "p384", "p521", "bp256"]
 ED_KEYS = ["ed25519", "ed448"]
 HASHES = ["sha1", "sha224", "sha256", "sha384", "sha512"]
@@ -289,7 +289,10 @@ def do_rsa_noncanon(case):
         if v == "pss_top_bits":
             if not zbits:
                 return good(nt=False, labels=labels)
-            masked[0] |= 0x80
+            # one of the 8*emLen - emBits leftmost bits, all of which must
+            # be zero (RFC 8017 9.1.2 step 6)
+            masked[0] &= 0xff >> zbits
+            masked[0] |= 0x80 >> (case["pos"] % zbits)
         elif zbits:
             masked[0] &= 0xff >> zbits
         em = bytes(masked) + H + bytes([trailer])
@@ -961,6 +964,11 @@ def explicit(tier, seed):
             for h in ("sha1", "sha256", "sha512"):
                 yield {"f": "rsa_noncanon", "key": name, "hash": h,
                        "variant": v, "s": seed, "pos": 3, "n": 20}
+                if v == "pss_top_bits":
+                    for pos in range(8):
+                        yield {"f": "rsa_noncanon", "key": name, "hash": h,
+                               "variant": v, "s": seed + pos, "pos": pos,
+                               "n": 20 + pos}
     for name in EC_KEYS:
         yield {"f": "ecdsa_sig", "key": name, "hash": "sha256",
                "mut": "none", "ossl": True, "s": seed, "pos": 0, "n": 33}
